@@ -63,7 +63,7 @@ import oracle
 from ser import Ids, Ser, Unsupported, cst, rat, ser, deser, env_text, store_text, bits_to_float
 
 LEAN_MODULE = "Optyx.Props.C01"
-EXTRA_MODULES = ["Optyx.Props.PinsC01", "Optyx.Props.C01Source", "Optyx.Props.OperatorsTie", "Optyx.Props.SpineTie"]   # transcription anchors (harness/source_pins.py)
+EXTRA_MODULES = ["Optyx.Props.PinsC01", "Optyx.Props.C01Source", "Optyx.Props.OperatorsTie", "Optyx.Props.SpineTie", "Optyx.Props.CompileEntryTie"]   # transcription anchors (harness/source_pins.py)
 THEOREMS = [
     "Optyx.Props.C01.evaluate_eq_denote",
     "Optyx.Props.C01.compile_total",
@@ -99,6 +99,10 @@ THEOREMS = [
     "Optyx.Props.SpineTie.depthG_eq",
     "Optyx.Props.SpineTie.compileSwitch_eq",
     "Optyx.Props.SpineTie.getAllVariables_eq",
+    "Optyx.Props.CompileEntryTie.compileExpression_eq",
+    "Optyx.Props.CompileEntryTie.dictFn_eq",
+    "Optyx.Props.CompileEntryTie.param_run",
+    "Optyx.Props.CompileEntryTie.compiledExpression_value",
     "Optyx.Props.PinsC01.anchors",
 ]
 ASSUMPTIONS = [
